@@ -23,6 +23,15 @@ if go test -vet=off -count=1 -run SeedDemo $PKG > $SEEDROOT/$NAME.demo1.log 2>&1
 git apply -R patch.diff
 if go test -vet=off -count=1 -run SeedDemo $PKG > $SEEDROOT/$NAME.demo0.log 2>&1; then echo "demo-without-change: PASS (expected)"; else echo "demo-without-change: FAIL (unexpected)"; tail -5 $SEEDROOT/$NAME.demo0.log; fi
 git apply patch.diff
+# against the scratch worktree itself (SEED_INPLACE=1: /repo is not touched, several seeds can be checked at once)
+if [ -n "${SEED_INPLACE:-}" ]; then
+  for c in $CHECKS; do
+    out=$(cd /verif && VERIF_REPO=$D ./run.sh $c $TIER 2>&1); rc=$?
+    echo "check $c rc=$rc: $(echo "$out" | tail -1 | cut -c1-200)"
+    echo "$out" | grep -E "^  class:" | head -6
+  done
+  exit 0
+fi
 # against /repo
 cd /repo && git diff --quiet || { echo "/repo is dirty, refusing"; exit 2; }
 git -C /repo apply $D/patch.diff || { echo "patch does not apply to /repo"; exit 2; }
